@@ -739,37 +739,31 @@ def _is_identity_relist(prog, fi, target, value):
 
 
 def rule_modf2(prog, rep, tier, anchor="sync_properties.sync_property"):
-    """MOD-F2: a node taken from the input tree is copied before it is field-mutated or grafted into the output tree."""
+    """MOD-F2: the node that is field-mutated and grafted into the output tree is owned: every definition of it is a fresh
+    construction or a deepcopy - never a bare alias of a node found in the input tree."""
     fi = prog.fn(anchor)
-    finds = []
-    for st in ast.walk(fi.node):
-        if isinstance(st, ast.Assign) and len(st.targets) == 1 and isinstance(st.targets[0], ast.Name):
-            for c in ast.walk(st.value):
-                if isinstance(c, ast.Call) and prog.is_fn(c.func, "ast_utils.find_in_ast", c):
-                    finds.append((st, c))
-    if not finds:
+    if not any(isinstance(c, ast.Call) and prog.is_fn(c.func, "ast_utils.find_in_ast", c) for c in ast.walk(fi.node)):
         raise AnalysisError("MOD-F2: %s no longer looks the input node up with find_in_ast" % anchor)
-    for st, c in finds:
-        name = st.targets[0].id
-        # is the find wrapped by deepcopy/copy (anywhere between the call and the assignment)?
-        copied = False
-        p = c._parent
-        while p is not st:
-            if isinstance(p, ast.Call) and (p.func.id if isinstance(p.func, ast.Name) else getattr(p.func, "attr", "")) in ("deepcopy",):
-                copied = True
-            p = p._parent
-        later_copy = any(isinstance(s, ast.Assign) and any(isinstance(t, ast.Name) and t.id == name for t in s.targets) and isinstance(s.value, ast.Call)
-                         and (s.value.func.id if isinstance(s.value.func, ast.Name) else "") == "deepcopy" and name in names_in(s.value) and s.lineno > st.lineno
-                         for s in ast.walk(fi.node))
+    grafts = [(x, k.value.id) for x in ast.walk(fi.node) if isinstance(x, ast.Call) for k in x.keywords if k.arg == "replacement_node" and isinstance(k.value, ast.Name)]
+    if not grafts:
+        raise AnalysisError("MOD-F2: %s no longer hands a `replacement_node=` to the replacer" % anchor)
+    for g, name in grafts:
+        defs = [st for st in ast.walk(fi.node) if isinstance(st, ast.Assign) and any(isinstance(t, ast.Name) and t.id == name for t in st.targets)]
         mutated = [w for w, b in _field_writes_on(fi, {name})]
-        grafted = [x for x in ast.walk(fi.node) if isinstance(x, ast.Call) and any(isinstance(k.value, ast.Name) and k.value.id == name for k in x.keywords if k.arg == "replacement_node")]
-        if copied or later_copy:
-            rep.holds("MOD-F2", "%s: input node copied before use (%d field writes, %d grafts)" % (anchor, len(mutated), len(grafted)), loc(prog, st), "")
-        elif mutated or grafted:
+        bad = []
+        for d in defs:
+            v = d.value
+            fresh = isinstance(v, ast.Call) and ((v.func.id if isinstance(v.func, ast.Name) else getattr(v.func, "attr", "")) in ("deepcopy",)
+                                                 or (isinstance(v.func, (ast.Name, ast.Attribute)) and (prog.ext_name(v.func, v) or "").startswith("ast.")))
+            if not fresh:
+                bad.append(d)
+        if not defs:
+            rep.ob("MOD-F2", "%s: %s" % (anchor, name), "unresolved", loc(prog, g), "no local definition of the grafted node")
+        elif bad:
             rep.violation(Finding(
                 "MOD-F2", anchor, "foreign-node:%s" % name,
-                "the node found in the input tree is %s without a copy: a second pair addressing the same input property sees the already wrapped "
-                "annotation, and input and output trees share nodes" % ("field-mutated (%s) and grafted" % src(mutated[0], 50) if mutated else "grafted into the output tree"),
-                loc(prog, st)))
+                "the node %s (%s) is %sgrafted into the output tree without a copy: a second pair addressing the same input property sees the already "
+                "wrapped annotation, and input and output trees share nodes" % (name, src(bad[0].value, 60), "field-mutated (%s) and " % src(mutated[0], 50) if mutated else ""),
+                loc(prog, bad[0])))
         else:
-            rep.holds("MOD-F2", "%s: input node neither mutated nor grafted" % anchor, loc(prog, st), "")
+            rep.holds("MOD-F2", "%s: every definition of %s is a fresh node or a deepcopy (%d definition(s), %d field write(s))" % (anchor, name, len(defs), len(mutated)), loc(prog, defs[0]), "")
